@@ -1,6 +1,6 @@
 (* C19 - @inject is equivalent to explicit lookups in the current context. *)
 From Coq Require Import String List Bool.
-From Asphalt Require Import Ctx.ResModel Ctx.ResProofs Ctx.ResInv Ctx.InjectModel Ctx.InjectProofs.
+From Asphalt Require Import Ctx.ResModel Ctx.ResProofs Ctx.ResInv Ctx.InjectModel Ctx.InjectProofs Gen.Gen_inject.
 Import ListNotations.
 Open Scope string_scope.
 Open Scope list_scope.
@@ -56,3 +56,20 @@ Theorem C19_same_tables : forall ds c tok x,
   ctx_inv x -> pending_ok x -> ctx_inv (fst (call ds c tok x)) /\ pending_ok (fst (call ds c tok x)).
 Proof. exact call_preserves_invariants. Qed.
 Print Assumptions C19_same_tables.
+
+(* the explicit call each injected parameter stands for, as read from inject() on this run: a plain function
+   looks its dependencies up with get_resource_nowait, a coroutine function awaits get_resource; optional=True
+   exactly for the parameters declared Optional *)
+Theorem C19_the_explicit_calls : forall tok name t,
+  lookup_action false tok (Dep name (ATy t)) = AGetNowait t name false /\
+  lookup_action false tok (Dep name (AOpt t)) = AGetNowait t name true /\
+  lookup_action true tok (Dep name (ATy t)) = AGetBegin tok t name false /\
+  lookup_action true tok (Dep name (AOpt t)) = AGetBegin tok t name true.
+Proof. exact the_explicit_calls. Qed.
+Print Assumptions C19_the_explicit_calls.
+
+Theorem C19_inject_in_source :
+  inj_context_at_call_time = true /\ inj_in_signature_order = true /\ inj_added_as_keywords = true /\
+  inj_sync_uses_nowait = true /\ inj_async_awaits_get_resource = true /\ inj_scan_as_documented = true.
+Proof. exact inject_source_shape. Qed.
+Print Assumptions C19_inject_in_source.
